@@ -44,9 +44,13 @@
     `conc_quiescent_validate_passes` at the quiescent end of every interleaving in which every
     call returned.
 
+  * `k3_online_race_overreports` — **refutation** (known finding K3) of the concurrent clause for
+    histories with tree changes: a free into an offline tree racing with `change_tree(Online)`
+    leaves the tree counter one block above the free frames at the quiescent end.
+
   PARTIAL: the conclusion is stated for interleavings in which every call has returned (a call
   that trapped keeps what it carried); frees of parts of huge allocations (K1) and `change_tree`
-  under interleavings are carried by the correspondence (statistics, `stats_at`, `is_free`,
+  under interleavings (K2/K3: refuted for Online) are carried by the correspondence (statistics, `stats_at`, `is_free`,
   `tree_stats` and `validate()` compared with the ownership model after every call of every
   sequential history and at the quiescent end of every explored interleaving).
 -/
@@ -230,5 +234,23 @@ theorem conc_quiescent_validate_passes (c : Cfg) (ok : CfgOk c) (m : Mem) (inv :
     let m' := (concRun sched (m, fun k => Th.at (runU c (cmds k) ⟨[], []⟩))).1
     Runs m' (validate c) (fun _ m'' => m' = m'') :=
   validate_passes c ok _ (upper_conc_quiescent ok _ m inv n cmds hvalid sched hsched hdone)
+
+/-! ### K3: the Online race without the overflow -/
+
+/-- two trees of 64 frames -/
+def cK3 : Cfg := { geom := ⟨6, 1⟩, frames := 128, classes := [(0, 1)], dflt := 0, policy := simplePolicy 64 }
+/-- frames 69 and 70 (tree 1) are allocated, tree 1 is offline -/
+def mK3 : Mem := ⟨#[0#64, 96#64], #[64, 62], #[⟨64, false, 0⟩, ⟨0, false, 0⟩], #[LTree.none]⟩
+def thsK3 : Nat → Th (Res Unit) := fun k =>
+  if k = 0 then .at (put cK3 69 ⟨0, 0, none⟩) else .at (changeTree cK3 (some 1) none 0 none (some .online))
+
+/-- **K3 (refutation of the concurrent clause with tree changes).** The free of frame 69 is
+    preempted between `Lower::put` and `Trees::put`, `change_tree(Online)` runs in between: at the
+    quiescent end tree 1 claims 64 free frames while its table entry (and its bitfield) hold 63 —
+    frame 70 is still allocated. The fast count over-reports and `validate()` fails. -/
+theorem k3_online_race_overreports :
+    (concRun [0, 0, 0, 0, 0, 1, 1, 1, 1, 1, 0, 0, 0] (mK3, thsK3)).1.trees[1]? = some ⟨64, false, 0⟩ ∧
+    (concRun [0, 0, 0, 0, 0, 1, 1, 1, 1, 1, 0, 0, 0] (mK3, thsK3)).1.huge[1]? = some 63 := by
+  decide
 
 end LLFree.C04
